@@ -483,7 +483,8 @@ def run_hist(sh, ctx):
 	uid = itertools.count(1000)
 
 	def newsig():
-		return np.array(sorted({next(uid) % 4000, rng.randrange(50)}), dtype='u2')  # unique id per inserted value
+		# unique id per inserted value; sizes vary from 1 to 5 (a replacement usually changes the size of the signature at that position)
+		return np.array(sorted({next(uid) % 4000} | {rng.randrange(50) for _ in range(rng.choice([0, 1, 1, 2, 4]))}), dtype='u2')
 
 	def same(sl, model):
 		if len(sl) != len(model):
@@ -575,10 +576,21 @@ def run_hist(sh, ctx):
 				ctx.violation('history-diverged', f'after {trace[-1]}: {[x.tolist() for x in sl]} vs model {[x.tolist() for x in model]}', dict(trace=trace[-30:]))
 				break
 			# equality + index sweep
+			# equality after EVERY step, both ways round and against both kinds of collection (the collection has been compared, sized and
+			# edited before: nothing remembered from an earlier state may enter the answer)
+			other = SignatureArray(model, ks, dtype=np.dtype('u2')) if model else SignatureList([], ks, dtype=np.dtype('u2'))
+			other2 = SignatureList(list(model), ks, dtype=np.dtype('u2'))
+			ctx.count('equality_checks_after_a_mutation', 3)
+			if not (sl == other) or not (other == sl) or not (sl == other2):
+				ctx.violation('history-eq', f'after {trace[-1] if trace else None}: the collection compares unequal to a fresh collection holding the same signatures ({[x.tolist() for x in model][:6]})', dict(trace=trace[-30:]))
+				break
+			if model and step % 3 == 0:
+				j_ = rng.randrange(len(model))
+				diff_ = list(model); diff_[j_] = np.array(sorted(set(model[j_].tolist()) ^ {4001}), dtype='u2')
+				if sl == SignatureList(diff_, ks, dtype=np.dtype('u2')) or SignatureArray(diff_, ks, dtype=np.dtype('u2')) == sl:
+					ctx.violation('history-eq', f'after {trace[-1] if trace else None}: the collection compares EQUAL to one that differs in signature {j_}', dict(trace=trace[-30:]))
+					break
 			if step % 5 == 0:
-				other = SignatureArray(model, ks, dtype=np.dtype('u2')) if model else SignatureList([], ks, dtype=np.dtype('u2'))
-				if not (sl == other):
-					ctx.violation('history-eq', 'collection != rebuilt copy of its model', dict(trace=trace[-30:]))
 				for s in (slice(None, None, -1), slice(1, None, 2)):
 					got = sl[s]
 					if [x.tolist() for x in got] != [x.tolist() for x in model[s]]:
